@@ -171,7 +171,17 @@ def finish(prop, tier, seed, prover, native, t0, level_note="", extra_assumption
         cov["evaluations"] = native.get("evaluations", 0)
         cov["distinct_nontrivial"] = native.get("distinct", 0)
         cov["rule"] = "native bounded stand-in: distinct argument tuples (by repr) that satisfy the contract's precondition"
-    ev = dict(property_id=prop, tier=tier, seed=seed, level="proof", coverage=cov,
+    level = "proof"
+    if n_obl == 0:
+        # no deductive obligation exists (yet) for this property: what ran is bounded contract checking only
+        level = "exploration"
+        cov.pop("obligations", None)
+        cov.pop("discharged", None)
+        cov["samples"] = [dict(function=f.get("function"), bound=f.get("bound"), evaluations=f.get("evaluations")) for f in (native or {}).get("functions", [])] or ["none"]
+        cov.setdefault("evaluations", 0)
+        cov.setdefault("distinct_nontrivial", 0)
+        cov.setdefault("rule", "native bounded stand-in")
+    ev = dict(property_id=prop, tier=tier, seed=seed, level=level, coverage=cov,
               assumptions=sorted(set(prover.get("assumptions", [])) | set(extra_assumptions)),
               wall_s=round(time.time() - t0, 2), violations=len(violations))
     with open(os.path.join(EVID, prop + ".json"), "w") as f:
